@@ -13,6 +13,7 @@ import S4V.Model.Gate
 import S4V.Model.SortDrain
 import S4V.Drv.Journal
 import S4V.Drv.Tmp
+import S4V.Drv.Fixed
 
 open S4V.Model S4V.Model.Wire
 
@@ -217,6 +218,7 @@ def step (line : String) : String :=
   | "sort" :: rest => stepSort rest
   | "jrn" :: rest => S4V.Drv.stepJournal rest
   | "tmp" :: rest => S4V.Drv.stepTmp rest
+  | "fixed" :: rest => S4V.Drv.stepFixed rest
   | _ => "bad-op"
 
 partial def loop (h : IO.FS.Stream) (out : IO.FS.Stream) : IO Unit := do
